@@ -197,13 +197,20 @@ def lookup_attribute_facts(ctx, rid):
     fi, outs = _outs(ctx, "SuitKeyValue._get_method_and_name")
     rets = [o for o in outs if o.kind == "return"]
     ok = False
+    # the entry may be selected by a comprehension over the map (conditions of the comprehension) or by a loop over the map that
+    # returns the first match (path conditions of the return inside the loop): the same selection conditions either way
+    in_loop = []
     for o in rets:
-        for s in subterms(o.value):
+        for i_, c_ in enumerate(o.conds):
+            if isinstance(c_, App) and c_.op == "inloop" and contains(c_.args[0], lambda u: isinstance(u, App) and u.op == "attr:map"):
+                in_loop.append(list(o.conds[i_ + 1:]))
+    for o in rets:
+        for s in [x for x in subterms(o.value)] + [x for c_ in o.conds for x in subterms(c_)]:
             if isinstance(s, App) and s.op == "==" and any(
                     isinstance(x, App) and x.op == "call:getattr" and x.args[-1] == Sym("param:attribute") for x in s.args) \
                     and any(x == Sym("param:key") for x in s.args):
                 ok = True
-    iter_map = any(contains(o.value, lambda s: isinstance(s, App) and s.op == "attr:map") for o in rets)
+    iter_map = any(contains(o.value, lambda s: isinstance(s, App) and s.op == "attr:map") for o in rets) or bool(in_loop)
     R.check(rid, ok and iter_map, "generic lookup compares getattr(entry key, attribute) with the wanted key over the node's own map",
             node=fi.node, function=ctx.fq(fi), mod=fi.module,
             expected="[k, v] for k, v in cls._metadata.map.items() if getattr(k, attribute) == key",
@@ -211,7 +218,8 @@ def lookup_attribute_facts(ctx, rid):
     # the selection is total over the table: no additional filter hides an entry (or every key class passes it)
     comps = [s for o in rets for s in subterms(o.value) if isinstance(s, App) and s.op == "comp:list" and len(s.args) == 3
              and contains(s.args[1], lambda u: isinstance(u, App) and u.op == "attr:map")]
-    if not comps:
+    selections = [list(c_.args[2].args) for c_ in comps[:1]] or in_loop[:1]
+    if not selections:
         raise AnalysisError("SuitKeyValue._get_method_and_name: selection over the map not recognised")
     def conjuncts(c):
         if isinstance(c, App) and c.op == "and":
@@ -220,8 +228,8 @@ def lookup_attribute_facts(ctx, rid):
                 out += conjuncts(x)
             return out
         return [c]
-    for cmp_ in comps[:1]:
-        for c in [x for c0 in cmp_.args[2].args for x in conjuncts(c0)]:
+    for sel_ in selections:
+        for c in [x for c0 in sel_ for x in conjuncts(c0)]:
             is_eq = isinstance(c, App) and c.op == "==" and any(isinstance(x, App) and x.op == "call:getattr" for x in c.args)
             if is_eq:
                 continue
